@@ -32,8 +32,10 @@ VARIABLES
     tl,     \* line of the current Tree event
     known, tip, base,
     owed,   \* rejected submissions not yet followed by a Ban
-    nban    \* Ban calls of this node so far
-tvars == <<l, tl, known, tip, base, owed, nban>>
+    nban,   \* Ban calls of this node so far
+    garb,   \* ids whose STORED body is a same-id variant that does not validate (never applied, not yet re-delivered)
+    ever    \* ids that have been on the best chain at some time (their bodies are validated and never replaced)
+tvars == <<l, tl, known, tip, base, owed, nban, garb, ever>>
 
 Ev == Log[l]
 T == Log[tl].tree
@@ -42,12 +44,12 @@ Step(op) == l <= N /\ Ev.op = op /\ l' = l + 1
 
 TraceInit ==
     /\ l = 1 /\ tl = 1
-    /\ known = {} /\ tip = G /\ base = G /\ owed = 0 /\ nban = 0
+    /\ known = {} /\ tip = G /\ base = G /\ owed = 0 /\ nban = 0 /\ garb = {} /\ ever = {}
 
 TTree ==
     /\ Step("Tree")
     /\ tl' = l
-    /\ known' = {} /\ tip' = G /\ base' = G /\ owed' = 0 /\ nban' = 0
+    /\ known' = {} /\ tip' = G /\ base' = G /\ owed' = 0 /\ nban' = 0 /\ garb' = {} /\ ever' = {}
 
 TNode ==
     /\ Step("Node")
@@ -55,13 +57,26 @@ TNode ==
     /\ tip' = Ev.tip
     /\ base' = Ev.base
     /\ Ev.tip \in Range(Ev.known)
-    /\ owed' = 0 /\ nban' = 0
+    /\ owed' = 0 /\ nban' = 0 /\ garb' = {}
+    /\ ever' = AncSet(T, Ev.tip)
     /\ UNCHANGED tl
+
+\* the tree as this node's store sees it: an id whose stored body is a non-validating variant fails on apply
+Stored(g) == [T EXCEPT !.cls = [b \in DOMAIN T.par |-> IF b \in g THEN "bad" ELSE T.cls[b]]]
+
+\* AddBlocks stores the body it is given for every block it does not refuse, unless the block has been applied
+\* before ("already have this block"): a genuine body heals an id, a same-id variant poisons it
+StoredIdx(bs) == LET r == FirstRefused(T, known, bs)
+                 IN {i \in DOMAIN bs : (r = 0 \/ i < r) /\ T.id[bs[i]] \notin ever}
+GarbAfterAdd(bs) ==
+    (garb \ {T.id[bs[i]] : i \in {j \in StoredIdx(bs) : T.id[bs[j]] = bs[j]}})
+        \cup {T.id[bs[i]] : i \in {j \in StoredIdx(bs) : T.id[bs[j]] # bs[j] /\ T.cls[bs[j]] # "ok"}}
 
 TAddBlocks ==
     /\ Step("AddBlocks")
     /\ LET bs == Ev.bs
-           r == AddBlocksRes(T, known, tip, bs)
+           g1 == GarbAfterAdd(bs)
+           r == AddBlocksRes(Stored(g1), known, tip, bs)
        IN /\ Len(bs) \in 1..BatchMax
           /\ Linked(T, bs)
           /\ Len(bs) > 1 => T.h[T.par[bs[1]]] < ReqH
@@ -69,13 +84,16 @@ TAddBlocks ==
           /\ Ev.tip = r.tip
           /\ known' = r.known
           /\ tip' = r.tip
+          /\ garb' = g1
+          /\ ever' = ever \cup AncSet(T, r.tip)
           /\ owed' = IF r.err THEN owed + 1 ELSE owed
     /\ UNCHANGED <<tl, base, nban>>
 
 TAddValidated ==
     /\ Step("AddValidated")
     /\ LET bs == Ev.bs
-           r == AddValidatedRes(T, known, tip, bs)
+           g1 == garb \ Ids(T, bs)
+           r == AddValidatedRes(Stored(g1), known, tip, bs)
        IN /\ Len(bs) \in 1..BatchMax
           /\ ValidatedOK(T, ReqH, bs)
           /\ Ev.sok
@@ -83,6 +101,8 @@ TAddValidated ==
           /\ Ev.tip = r.tip
           /\ known' = r.known
           /\ tip' = r.tip
+          /\ garb' = g1
+          /\ ever' = ever \cup AncSet(T, r.tip)
           /\ owed' = IF r.err THEN owed + 1 ELSE owed
     /\ UNCHANGED <<tl, base, nban>>
 
@@ -91,7 +111,7 @@ TAddV2Pool ==
     /\ Ev.n > 0
     /\ Ev.bk
     /\ Ev.tip = tip
-    /\ UNCHANGED <<tl, known, tip, base, owed, nban>>
+    /\ UNCHANGED <<tl, known, tip, base, owed, nban, garb, ever>>
 
 IsHonest(who) == Len(who) >= 7 /\ SubSeq(who, 1, 7) = "honest:"
 
@@ -102,13 +122,13 @@ TBan ==
        \/ IsHonest(Ev.who) /\ DevOutlineSidechainBan /\ Ev.kind = "outline-insufficient-work"
     /\ owed' = IF owed > 0 /\ Ev.who # "subnet" THEN owed - 1 ELSE owed
     /\ nban' = nban + 1
-    /\ UNCHANGED <<tl, known, tip, base>>
+    /\ UNCHANGED <<tl, known, tip, base, garb, ever>>
 
 TEnd ==
     /\ Step("End")
     /\ Ev.tip = tip
     /\ owed = 0
-    /\ UNCHANGED <<tl, known, tip, base, owed, nban>>
+    /\ UNCHANGED <<tl, known, tip, base, owed, nban, garb, ever>>
 
 TraceNext == TTree \/ TNode \/ TAddBlocks \/ TAddValidated \/ TAddV2Pool \/ TBan \/ TEnd
 
